@@ -28,15 +28,17 @@ type kase struct {
 	Clause string `json:"clause,omitempty"` // failing clause (must-refuse) or unsettled zone (dont-care)
 	Email  string `json:"email_vouched,omitempty"`
 
-	Token   ans    `json:"token_answer"`
-	TokenB  string `json:"token_body"`
-	UI      *ans   `json:"userinfo_answer,omitempty"`
-	UIB     string `json:"userinfo_body,omitempty"`
-	IDSegs  int    `json:"id_token_segments,omitempty"`
-	PClass  string `json:"input_class,omitempty"` // class of the hostile input, used to name a crash
-	Decoy   string `json:"decoy_email,omitempty"` // e-mail-shaped value placed in fields that do not vouch
-	Skip    string `json:"-"`
-	descKey string
+	Token        ans    `json:"token_answer"`
+	TokenB       string `json:"token_body"`
+	UI           *ans   `json:"userinfo_answer,omitempty"`
+	UIB          string `json:"userinfo_body,omitempty"`
+	IDSegs       int    `json:"id_token_segments,omitempty"`
+	PClass       string `json:"input_class,omitempty"`   // class of the hostile input, used to name a crash
+	Decoy        string `json:"decoy_email,omitempty"`   // e-mail-shaped value placed in fields that do not vouch
+	Browser      string `json:"browser_state,omitempty"` // what the browser already holds at /callback ("" = no session cookie)
+	BrowserEmail string `json:"browser_session_email,omitempty"`
+	Skip         string `json:"-"`
+	descKey      string
 
 	Outcome      string `json:"outcome,omitempty"`
 	Status       int    `json:"status,omitempty"`
@@ -294,9 +296,10 @@ var optUIFields = map[string][]string{
 	"okta":    {"sub", "name", "groups", "zoneinfo", "preferred_username", "username"},
 	"cognito": {"sub", "username", "name", "cognito:groups", "groups", "identities"},
 }
+
 // decoy identities: fields other than the vouching e-mail field in which an e-mail-shaped string may sit
 var decoyFields = []string{"username", "preferred_username", "cognito:username", "sub", "name", "nickname", "upn", "unique_name",
-	"login", "emails", "email_address", "mail", "identities"}
+												"login", "emails", "email_address", "mail", "identities"}
 var decoyVouch = []string{"", "empty", "absent", "null", "number", "array", "unverified"} // index 1..5 = emNames, 6 = email_verified false
 var decoyLocs = []string{"token-answer", "id_token-claims", "userinfo"}
 var keySpellings = []string{"Email", "EMAIL", "eMail"}
@@ -326,6 +329,11 @@ func withAll(ps []pair, add []pair) []pair {
 	return ps
 }
 
+// browser state at /callback: the authenticator session cookie the browser already presents
+var browserStates = []string{"", "has-live-session", "has-live-session-of-another-user", "has-expired-session", "has-forged-session"}
+
+const nBrowserAnswers = 20
+
 var optClaims = []string{"iss", "aud", "sub", "iat", "exp", "nonce", "hd", "name"}
 
 // template lengths (every case of a provider has bodies of the same length, see mkIDs)
@@ -336,7 +344,9 @@ func templateLens(prov string) (tok, ui int) {
 
 func buildSpecs(prov string, thorough bool) []spec {
 	var s []spec
-	add := func(k string, a, b, c, d int) { s = append(s, spec{kind: k, a: a, b: b, c: c, d: d, decoy: len(s)%2 == 1}) }
+	add := func(k string, a, b, c, d int) {
+		s = append(s, spec{kind: k, a: a, b: b, c: c, d: d, decoy: len(s)%2 == 1})
+	}
 	tokLen, uiLen := templateLens(prov)
 	for i := 0; i < 16; i++ {
 		add("ok", i, 0, 0, 0)
@@ -416,6 +426,12 @@ func buildSpecs(prov string, thorough bool) []spec {
 	for em := 1; em <= 3; em++ {
 		for sp := range keySpellings {
 			add("decoy-key-case", em, sp, 0, 0)
+		}
+	}
+	// browser state at /callback x a reduced set of IdP answers (callback site only)
+	for b := 1; b < len(browserStates); b++ {
+		for a := 0; a < nBrowserAnswers; a++ {
+			add("browser", b, a, 0, 0)
 		}
 	}
 	if prov == "google" {
@@ -682,6 +698,113 @@ func build(prov string, sp spec, id ids) kase {
 		k.Dims = "id_token=" + ri.name
 		k.IDSegs = ri.segs
 		refuse(ri.clause)
+	case "browser":
+		k.Browser = browserStates[sp.a]
+		k.BrowserEmail = id.email
+		if sp.a == 2 {
+			k.BrowserEmail = id.decoy
+		}
+		var name string
+		tokSt := func(st int, body string) {
+			k.Token = ans{Status: st, Body: body}
+			refuse("token-status-non-200")
+			name = fmt.Sprintf("token-%d", st)
+		}
+		errBody := statusBody(prov, 1, V)
+		switch sp.b {
+		case 0:
+			name = "vouching"
+		case 1:
+			tokSt(400, errBody)
+		case 2:
+			tokSt(400, V)
+			name = "token-400-with-valid-body"
+		case 3:
+			tokSt(401, errBody)
+		case 4:
+			tokSt(403, errBody)
+		case 5:
+			tokSt(429, errBody)
+		case 6:
+			tokSt(500, errBody)
+		case 7:
+			tokSt(503, V)
+		case 8:
+			tokSt(302, V)
+		case 9:
+			tokSt(204, "")
+		case 10:
+			k.Token.Body, name = V[:len(V)/2], "token-malformed"
+			refuse("token-body-malformed")
+		case 11:
+			k.Token.Body, name = "{}", "token-empty-object"
+			refuse("token-answer-incomplete")
+		case 12:
+			k.Token.Fault, name = faultDrop, "token-dropped"
+			refuse("token-connection-fault")
+		default:
+			if prov == "google" {
+				em, ev, n, b := 0, 0, 3, 0
+				switch sp.b {
+				case 13:
+					ev, name = 1, "unverified"
+					refuse("email-unverified")
+				case 14:
+					em, name = 2, "email-absent"
+					refuse("email-missing-or-mistyped")
+				case 15:
+					em, name = 1, "email-empty"
+					refuse("email-missing-or-mistyped")
+				case 16:
+					n, name = 1, "id_token-one-segment"
+					refuse("id_token-segments<2")
+				case 17:
+					b, name = 3, "id_token-bad-base64"
+					refuse("id_token-bad-base64")
+				case 18:
+					ev, name = 3, "email_verified-string-true"
+					refuse("email-unverified")
+				default:
+					ev, name = 2, "email_verified-absent"
+					refuse("email-unverified")
+				}
+				seg := b64seg(b, payloadJSON(id.email, emRaw(em, id.email), evRaw(ev)))
+				k.Token.Body = obj(with(tps, "id_token", q(idToken(n, seg, false, id))))
+				k.IDSegs = -1
+			} else {
+				uiSt := func(st int) {
+					k.UI = &ans{Status: st, Body: statusBody(prov, 1, U)}
+					refuse("userinfo-status-non-200")
+					name = fmt.Sprintf("userinfo-%d", st)
+				}
+				switch sp.b {
+				case 13:
+					if prov == "okta" {
+						k.UI.Body, name = obj(with(ups, "email_verified", "false")), "unverified"
+						refuse("email-unverified")
+					} else {
+						k.UI.Body, name = obj(with(ups, "email", "null")), "email-null"
+						refuse("email-missing-or-mistyped")
+					}
+				case 14:
+					k.UI.Body, name = obj(with(ups, "email", absent)), "email-absent"
+					refuse("email-missing-or-mistyped")
+				case 15:
+					uiSt(400)
+				case 16:
+					uiSt(401)
+				case 17:
+					uiSt(500)
+				case 18:
+					k.UI.Body, name = U[:len(U)/2], "userinfo-malformed"
+					refuse("userinfo-body-malformed")
+				default:
+					uiSt(429)
+				}
+			}
+		}
+		k.PClass = "browser-" + k.Browser
+		k.Dims = "browser=" + k.Browser + " idp=" + name
 	case "decoy-id":
 		v, f, loc := sp.a, sp.b, sp.c
 		all := f == len(decoyFields)
